@@ -2,7 +2,8 @@
 pub open spec fn is_empty_final(n: BNode) -> bool { n.is_final && n.trans.len() == 0 && n.fo == 0 }
 /// the node is not a dead end
 pub open spec fn live_node(n: BNode) -> bool { n.is_final || n.trans.len() > 0 }
-pub open spec fn nonneg_node(n: BNode) -> bool { n.fo >= 0 && forall|i: int| 0 <= i < n.trans.len() ==> (#[trigger] n.trans[i]).out >= 0 }
+/// outputs are non-negative and only a final node carries a final output
+pub open spec fn nonneg_node(n: BNode) -> bool { n.fo >= 0 && (!n.is_final ==> n.fo == 0) && forall|i: int| 0 <= i < n.trans.len() ==> (#[trigger] n.trans[i]).out >= 0 }
 pub open spec fn zero_node(n: BNode) -> bool { n.fo == 0 && forall|i: int| 0 <= i < n.trans.len() ==> (#[trigger] n.trans[i]).out == 0 }
 /// z: "no value but 0 has been inserted" (a set)
 pub open spec fn node_ok(n: BNode, z: bool) -> bool { live_node(n) && nonneg_node(n) && !is_empty_final(n) && (z ==> zero_node(n)) }
